@@ -40,7 +40,9 @@ type GenCfg struct {
 	Identity  int // permille: leaf is an identity-hash CID
 }
 
-var fieldNames = []string{"a", "b", "c", "d"}
+// field names include one that is a string prefix of its neighbour ("a"/"ab"):
+// path comparisons must work on segments, not on text
+var fieldNames = []string{"a", "ab", "b", "c", "d"}
 
 type dagGen struct {
 	t    *Tape
@@ -154,6 +156,9 @@ func (g *dagGen) value(depth, nest int, kids *[]cid.Cid) ipld.Node {
 	case nest < 2: // inline list
 		nb := basicnode.Prototype.List.NewBuilder()
 		cnt := 1 + g.t.Draw(3)
+		if g.t.Chance(60) {
+			cnt = 11 + g.t.Draw(3) // two-digit indices: "1" is a textual prefix of "10".."13"
+		}
 		la, _ := nb.BeginList(int64(cnt))
 		for i := 0; i < cnt; i++ {
 			_ = la.AssembleValue().AssignNode(g.value(depth, nest+1, kids))
@@ -169,7 +174,7 @@ func (g *dagGen) block(depth int, root bool) cidlink.Link {
 	id := g.n
 	var kids []cid.Cid
 	nb := basicnode.Prototype.Map.NewBuilder()
-	cnt := 1 + g.t.Draw(4)
+	cnt := 1 + g.t.Draw(5)
 	if root && cnt < 2 {
 		cnt = 2
 	}
